@@ -147,7 +147,13 @@ func (s *Stmt) walk(f func(*Stmt)) {
 func (s *Stmt) subst(f func(Ref) Ref, g func(*Stmt) *Stmt) *Stmt {
 	c := *s
 	switch s.K {
-	case KSeq, KChoice:
+	case KSeq:
+		a, b := s.A.subst(f, g), s.B.subst(f, g)
+		if a.K == KSkip || b.K == KSkip {
+			return seq(a, b)
+		}
+		c.A, c.B = a, b
+	case KChoice:
 		c.A, c.B = s.A.subst(f, g), s.B.subst(f, g)
 	case KLoop:
 		c.A = s.A.subst(f, g)
